@@ -173,10 +173,11 @@ AssembleFails(e) ==
         \cup (IF e.twin.by = "case" THEN Chk("C18:CaseInvAssembly", SameOutcomeCase(out, e.twin.out)) ELSE {})
         \* (spare modules are allowed when the reverse-complemented set cannot run into a duplicate: the END overhangs of the
         \* supplied modules are pairwise different and no two of them are reverse complements of each other)
-        \cup (IF e.twin.by = "rc" /\ out.kind = "product"
+        \* (either strand may be the one that is refused: the clause applies when one of the two calls gave a product)
+        \cup (IF e.twin.by = "rc" /\ (out.kind = "product" \/ (e.twin.out.kind = "product" /\ ProductExpected(g)))
                  /\ (g.unused = {} \/ ((\A i \in 1..Len(dm) : dm[i].ok)
                                         /\ \A i, j \in 1..Len(dm) : i # j => ~Eq(dm[i].down, dm[j].down) /\ ~Eq(dm[i].down, RC(dm[j].down))))
-              THEN Chk("C12:StrandSymAssembly", e.twin.out.kind = "product" /\ CycEq(e.twin.out.seq, RC(out.seq))) ELSE {})
+              THEN Chk("C12:StrandSymAssembly", out.kind = "product" /\ e.twin.out.kind = "product" /\ CycEq(e.twin.out.seq, RC(out.seq))) ELSE {})
         \cup (IF e.twin.by = "swap" /\ out.kind = "product" /\ ProductAllowed(g)
               THEN LET nd0 == DecompModule(e.twin.mod.seq, e.enz)
                        nd == IF nd0.ok THEN nd0 ELSE DecompModuleFirst(e.twin.mod.seq, e.enz)     \* (a valid module may carry more sites behind its structure)
